@@ -612,7 +612,7 @@ func rulePair(c *Ctx, m *ttModel) {
 					sitesG = []ssa.CallInstruction{s.Ins.(ssa.CallInstruction)}
 				} else {
 					for _, cs := range p.CallSitesOf(g) {
-						if m.regOf[s.entry].In[cs.Fn] {
+						if m.regOf[s.entry].In[cs.Fn] || cs.Fn == s.Fn {
 							sitesG = append(sitesG, cs.Ins.(ssa.CallInstruction))
 						}
 					}
